@@ -1,4 +1,6 @@
 pub mod c01;
+pub mod c02;
+pub mod c04;
 pub mod c07;
 pub mod c08;
 pub mod c09;
@@ -10,5 +12,6 @@ pub mod c14;
 pub mod c15;
 pub mod c16;
 pub mod c17;
+pub mod c18;
 
 pub fn c13_perm(seed: u32, n: usize) -> Vec<usize> { c13::perm_of(seed, n) }
